@@ -249,8 +249,8 @@ CHECKS = {
              "reversal incl. a smooth-series-with-end-outlier family) for all 9 variant configurations, with the property's tie rules, and "
              "every run is compared bit-for-bit with the models.",
         ref="7 (C06)",
-        note="The offset law is also proved through lambda selection for the symmetric V-curve smoother (C06_vcurve_shift: same lambda, "
-             "curve moved by the constant). Partial: the lifting of the reversal law through lambda selection, and of both laws through "
+        note="The offset and reversal laws are also proved through lambda selection for the symmetric V-curve smoother (C06_vcurve_shift, "
+             "C06_vcurve_rev: same lambda, curve moved by the constant / reversed). Partial: the lifting of both laws through "
              "GCV, the asymmetric reweighting (its iteration starts from the zero curve, which is not shift-invariant) and "
              "the robust weights is not proved, only checked on the implementation. Tie rules: +-1 on at most max(1, n/50) cells per "
              "pair; a different lambda only when the re-computed criterion is tied to 1e-6. Axioms: real-number axioms of the standard library.",
